@@ -656,10 +656,16 @@ func (u *Unit) checkAt(st *State, instr ssa.Instruction, mark string) {
 			u.atHit = map[*Clause]bool{}
 		}
 		u.atHit[c] = true
+		if c.GhostTarget != "" {
+			u.ghostNew(st, c)
+			continue
+		}
 		env := u.newEnv(st)
 		g := u.evalBool(env, c.Expr)
 		u.addOblig(st, "at."+labelOr(c, "assert"), c.Text, c.Props, g, instr, "at "+mark+": "+c.Text)
-		st.assume(g)
+		if !c.NoAssume {
+			st.assume(g)
+		}
 	}
 }
 
@@ -890,7 +896,7 @@ func (u *Unit) appendOp(st *State, instr ssa.Instruction, cc *ssa.CallCommon, ar
 	h2 := u.fresh(hn+"@append", hs)
 	resC := name(res, "app.res")
 	sC := name(s, "app.s")
-	q := fmt.Sprintf("(forall ((a!q Int)) (! (=> (not (= a!q %s)) (= (select %s a!q) (select %s a!q))) :pattern ((select %s a!q))))", resArr.S, h2.S, h.S, h2.S)
+	q := fmt.Sprintf("(forall ((a!q Int)) (! (=> (not (= a!q %s)) (= (select %s a!q) (select %s a!q))) :pattern ((select %s a!q)) :pattern ((select %s a!q))))", resArr.S, h2.S, h.S, h2.S, h.S)
 	st.assumeDef(T{q, SBool})
 	iq := T{"i!q", SInt}
 	var appended T
@@ -950,14 +956,14 @@ func (u *Unit) copyOp(st *State, instr ssa.Instruction, cc *ssa.CallCommon, args
 	d, s = nm(d, "copy.dst"), nm(s, "copy.src")
 	n = nm(n, "copy.n")
 	darr, doff := app(SInt, "sarr", d), app(SInt, "soff", d)
-	st.assumeDef(T{fmt.Sprintf("(forall ((a!q Int)) (! (=> (not (= a!q %s)) (= (select %s a!q) (select %s a!q))) :pattern ((select %s a!q))))", darr.S, h2.S, h.S, h2.S), SBool})
+	st.assumeDef(T{fmt.Sprintf("(forall ((a!q Int)) (! (=> (not (= a!q %s)) (= (select %s a!q) (select %s a!q))) :pattern ((select %s a!q)) :pattern ((select %s a!q))))", darr.S, h2.S, h.S, h2.S, h.S), SBool})
 	iq := T{"i!q", SInt}
 	st.assumeDef(T{fmt.Sprintf("(forall ((i!q Int)) (! (=> (and (<= 0 i!q) (< i!q %s)) (= %s %s)) :pattern (%s)))",
 		n.S, u.selem(h2, d, iq).S, u.selem(h, s, iq).S, u.selem(h2, d, iq).S), SBool})
 	st.assumeDef(T{fmt.Sprintf("(forall ((i!q Int)) (! (=> (or (< i!q %s) (>= i!q (+ %s %s))) (= (select (select %s %s) i!q) (select (select %s %s) i!q))) :pattern ((select (select %s %s) i!q))))",
 		doff.S, doff.S, n.S, h2.S, darr.S, h.S, darr.S, h2.S, darr.S), SBool})
 	u.heapSet(st, hn, h2)
-	u.note("copy(dst, src): source and destination ranges assumed not to overlap when they share a backing array")
+	// copy has memmove semantics: the elements are read from the pre-state heap, so overlapping ranges are modelled exactly
 	return n
 }
 
@@ -981,6 +987,7 @@ func (u *Unit) doGo(st *State, x *ssa.Go) {
 	if fn != nil {
 		name = relName(fn)
 	}
+	u.checkAt(st, x, "go:"+name)
 	u.event(st, "go:"+name, args)
 	// lock discipline: spawning is not blocking; nothing to check.
 	// token transfer according to the goroutine body's contract
